@@ -490,7 +490,8 @@ func checkC10(c *Ctx) {
 			if round == 1 && impl != "err" && impl != "panic" {
 				// oracle: a filled translated field whose type the chain left alone comes back as the value of
 				// the original leaf it stands for (located by the flatten mangler's field path, else by name)
-				for k := 0; k < val.NumField(); k++ {
+				for fi := 0; fi < val.NumField(); fi++ {
+					k := fi
 					fv := val.Field(k)
 					if (fv.Kind() == reflect.Ptr || fv.Kind() == reflect.Slice || fv.Kind() == reflect.Map) && fv.IsNil() {
 						continue
@@ -504,6 +505,10 @@ func checkC10(c *Ctx) {
 					leaf := leafOf(out, names)
 					if !leaf.IsValid() {
 						res.Add(Finding{Kind: "violation", What: fmt.Sprintf("translated field %s was filled, but the original leaf %s is unset after ReverseTranslate", TT.Field(k).Name, path), Case: cs2, Observed: impl})
+						break
+					}
+					if lk := leaf.Kind(); (lk == reflect.Ptr || lk == reflect.Map || lk == reflect.Slice) && leaf.IsNil() {
+						res.Add(Finding{Kind: "violation", What: fmt.Sprintf("translated field %s was filled (%s), but the original leaf %s is unset (nil) after ReverseTranslate", TT.Field(fi).Name, tfValC10(fv), path), Case: cs2, Observed: impl})
 						break
 					}
 					if leaf.Type() != fv.Type() {
